@@ -2095,9 +2095,12 @@ Lemma path_len_merge (E E' : nat -> option L) u v id c :
   path_len O (map E' (filter (notid id) (u ++ id :: c :: v))) = path_len O (map E (u ++ id :: c :: v)).
 Proof.
   intros Hu Hv Hcu Hcv Hcid Hsame Hc Hiff.
-  rewrite filter_app. cbn [filter]. unfold notid at 2 3. rewrite Nat.eqb_refl.
-  replace (Nat.eqb c id) with false by (symmetry; apply Nat.eqb_neq; auto). cbn [negb].
-  rewrite !filter_notid_id by auto. rewrite !map_app. cbn [map].
+  assert (Hf : filter (notid id) (id :: c :: v) = c :: v).
+  { cbn [filter].
+    assert (H1 : notid id id = false) by (unfold notid; rewrite Nat.eqb_refl; auto).
+    assert (H2 : notid id c = true) by (unfold notid; apply negb_true_iff, Nat.eqb_neq; auto).
+    rewrite H1, H2, filter_notid_id by auto. reflexivity. }
+  rewrite filter_app, Hf, filter_notid_id by auto. rewrite !map_app. cbn [map].
   assert (Eu : map E' u = map E u).
   { apply map_ext_in. intros x Hx. apply Hsame; intros ->; auto. }
   assert (Ev : map E' v = map E v).
@@ -2122,6 +2125,241 @@ Lemma path_len_same (E E' : nat -> option L) l id c :
 Proof.
   intros Hid Hc Hsame. rewrite filter_notid_id by auto. f_equal.
   apply map_ext_in. intros x Hx. apply Hsame; intros ->; auto.
+Qed.
+
+(* what a compression step does to liveness, parents and lengths *)
+Lemma compress_node_up t t' id :
+  WFS t -> compress_node O t id = Ok t' ->
+  exists n P child nc new_edge,
+    nth_error t id = Some n /\ ndeleted n = false /\ nparent n = Some P /\ nchildren n = [child] /\
+    nth_error t child = Some nc /\ nparent nc = Some id /\ child <> id /\ id <> P /\ child <> P /\
+    compress_edge O (npedge n) (npedge nc) = Some new_edge /\
+    length t' = length t /\
+    nth_error t' id = Some tombstone /\
+    (forall j m, nth_error t j = Some m -> j <> id ->
+       exists m', nth_error t' j = Some m' /\ ndeleted m' = ndeleted m /\
+         nparent m' = (if Nat.eqb j child then Some P else nparent m) /\
+         npedge m' = (if Nat.eqb j child then new_edge else npedge m)).
+Proof.
+  intros Hwfs H.
+  destruct (compress_node_exact O t t' id Hwfs H)
+    as (n & P & child & nP & nc & ne & nP' & dc & Hn & Hdn & Hpn & Hchn & HnP & HdP & Hnc & Hdc & Hpc &
+        HidP & HcP & Hcid & HinP & HninP & Hce & Hlen & Sid & Sc & SP & Hlab & HchP' & _ & _ & _ & So).
+  exists n, P, child, nc, ne. splits; auto.
+  intros j m Hm Hjid.
+  destruct (Nat.eqb_spec j child) as [->|Hjc].
+  - assert (m = nc) by congruence. subst m. eexists. split; [exact Sc|]. simpl. auto.
+  - destruct (Nat.eq_dec j P) as [->|HjP].
+    + assert (m = nP) by congruence. subst m. exists nP'. destruct Hlab as (_ & _ & Hp & He & _ & Hd). auto.
+    + destruct (So j m Hjid HjP Hjc Hm) as (d & Hd). eexists. split; [exact Hd|]. simpl. auto.
+Qed.
+
+Lemma last_in {A} : forall (l2 l1 : list A) x l3 y, l1 ++ x :: l2 = l3 ++ [y] -> In y (x :: l2).
+Proof.
+  induction l2 as [|z l2 _] using rev_ind; intros l1 x l3 y H.
+  - apply app_inj_tail in H as [_ ->]. simpl; auto.
+  - rewrite app_comm_cons, app_assoc in H. apply app_inj_tail in H as [_ ->].
+    right. apply in_or_app. simpl; auto.
+Qed.
+
+Lemma NoDup_mid2 (u v : list nat) x y :
+  NoDup (u ++ x :: y :: v) -> ~ In x u /\ ~ In x v /\ ~ In y u /\ ~ In y v /\ y <> x.
+Proof.
+  intros H. apply NoDup_app_iff in H as (_ & H2 & H3).
+  apply NoDup_cons_iff in H2 as [Hx H2]. apply NoDup_cons_iff in H2 as [Hy _].
+  splits.
+  - intros Hin. apply (H3 x Hin). simpl; auto.
+  - intros Hin. apply Hx. simpl; auto.
+  - intros Hin. apply (H3 y Hin). simpl; auto.
+  - auto.
+  - intros ->. apply Hx. simpl; auto.
+Qed.
+
+Lemma compress_node_paths t t' id root r root' r' :
+  WFS t -> compress_node O t id = Ok t' -> WFS t' ->
+  Rep t None 0 root r -> Rep t' None 0 root' r' ->
+  forall k q x, length q <= k -> rpath x r = Some q -> x <> id ->
+    rpath x r' = Some (filter (notid id) q).
+Proof.
+  intros Hwfs Hc Hwfs' HR HR'.
+  destruct (WFS_Rep _ _ _ Hwfs HR) as [Hnd Hlive]. destruct (WFS_Rep _ _ _ Hwfs' HR') as [Hnd' Hlive'].
+  destruct (compress_node_up t t' id Hwfs Hc)
+    as (n & P & child & nc & ne & Hn & Hdn & Hpn & Hchn & Hnc & Hpc & Hcid & HidP & HcP & _ & Hlen & Sid & Sup).
+  assert (Hgid : get t id = Ok n) by (apply get_Ok; auto).
+  assert (Hkeep : forall y, y <> id -> filter (notid id) [y] = [y]).
+  { intros y Hy. simpl. unfold notid. apply Nat.eqb_neq in Hy. rewrite Hy. reflexivity. }
+  assert (Hdrop : filter (notid id) [id] = []).
+  { simpl. unfold notid. rewrite Nat.eqb_refl. reflexivity. }
+  induction k as [|k IH]; intros q x Hk Hq Hx.
+  { pose proof (rpath_length _ _ _ Hq). lia. }
+  pose proof (rpath_In _ _ _ Hq) as Hin.
+  destruct (Rep_ids_live _ _ _ _ _ _ HR Hin) as (m & Hm & Hdm).
+  assert (Hg : get t x = Ok m) by (apply get_Ok; auto).
+  destruct (Sup x m Hm Hx) as (m' & Hm' & Hdm' & Hpm' & _).
+  assert (Hin' : In x (ids r')) by (apply Hlive'; exists m'; split; auto; congruence).
+  assert (Hg' : get t' x = Ok m') by (apply get_Ok; split; auto; congruence).
+  destruct (nparent m) as [par|] eqn:Hpar.
+  - destruct (parent_rpath t root r x m par HR Hnd Hin Hg Hpar) as (Hparin & pq & Hpq & Hxq).
+    rewrite Hq in Hxq. injection Hxq as ->. rewrite app_length in Hk. simpl in Hk.
+    destruct (Nat.eqb_spec x child) as [->|Hxc].
+    + assert (m = nc) by congruence. subst m. assert (par = id) by congruence. subst par.
+      assert (HidIn : In id (ids r)) by auto.
+      destruct (parent_rpath t root r id n P HR Hnd HidIn Hgid Hpn) as (HPin & pP & HpP & Hidq).
+      rewrite Hpq in Hidq. injection Hidq as ->. rewrite app_length in Hk. simpl in Hk.
+      destruct (parent_rpath t' root' r' child m' P HR' Hnd' Hin' Hg' Hpm') as (_ & pP' & HpP' & Hcq').
+      rewrite (IH pP P) in HpP'; auto; try lia. injection HpP' as <-.
+      rewrite Hcq'. f_equal. rewrite !filter_app, Hdrop, Hkeep, app_nil_r; auto.
+    + assert (Hparid : par <> id).
+      { intros ->. destruct Hwfs as [Hwf _].
+        destruct (WF_parent_of _ _ _ _ Hwf Hg Hpar) as (n0 & Hg0 & Hin0).
+        assert (n0 = n) by congruence. subst n0. rewrite Hchn in Hin0. simpl in Hin0. intuition. }
+      destruct (parent_rpath t' root' r' x m' par HR' Hnd' Hin' Hg' Hpm') as (_ & pq' & Hpq' & Hxq').
+      rewrite (IH pq par) in Hpq'; auto; try lia. injection Hpq' as <-.
+      rewrite Hxq'. f_equal. rewrite filter_app, Hkeep; auto.
+  - pose proof (Rep_root_unique _ _ _ _ _ _ _ HR Hin Hm Hpar) as Ex.
+    assert (Hxc : x <> child) by (intros ->; congruence).
+    apply Nat.eqb_neq in Hxc. rewrite Hxc in Hpm'.
+    pose proof (Rep_root_unique _ _ _ _ _ _ _ HR' Hin' Hm' Hpm') as Ex'.
+    pose proof (rpath_root r) as Hr. rewrite (Rep_rid _ _ _ _ _ HR), <- Ex in Hr. rewrite Hq in Hr. injection Hr as ->.
+    pose proof (rpath_root r') as Hr'. rewrite (Rep_rid _ _ _ _ _ HR'), <- Ex' in Hr'. rewrite Hr'.
+    f_equal. symmetry. apply Hkeep. auto.
+Qed.
+
+Lemma edge_of_nth t x m : nth_error t x = Some m -> edge_of t x = npedge m.
+Proof. unfold edge_of. intros ->. reflexivity. Qed.
+
+(* one compression step keeps the length of the path between any two surviving nodes *)
+Lemma compress_node_dist t t' id a b :
+  WFS t -> compress_node O t id = Ok t' -> live t' a -> live t' b ->
+  live t a /\ live t b /\
+  exists d k k', get_distance O t a b = Ok (d, k) /\ get_distance O t' a b = Ok (d, k').
+Proof.
+  intros Hwfs Hc Hla' Hlb'. pose proof (compress_node_wf O _ _ _ Hwfs Hc) as Hwfs'.
+  destruct (compress_node_up t t' id Hwfs Hc)
+    as (n & P & child & nc & ne & Hn & Hdn & Hpn & Hchn & Hnc & Hpc & Hcid & HidP & HcP & Hce & Hlen & Sid & Sup).
+  assert (Hsurv : forall x, live t' x -> x <> id /\ live t x).
+  { intros x (m' & Hm' & Hd'). assert (Hx : x <> id) by (intros ->; rewrite Sid in Hm'; injection Hm' as <-; discriminate).
+    split; auto. pose proof (nth_error_Some_lt _ _ _ Hm') as Hlt. rewrite Hlen in Hlt.
+    destruct (nth_error t x) as [m|] eqn:Hm; [|apply nth_error_None in Hm; lia].
+    destruct (Sup x m Hm Hx) as (m2 & Hm2 & Hd2 & _). exists m. split; auto. congruence. }
+  destruct (Hsurv a Hla') as [Haid Hla]. destruct (Hsurv b Hlb') as [Hbid Hlb]. splits; auto.
+  destruct Hwfs as [Hwf Hse]. pose proof Hwf as Hwf0.
+  destruct Hwf as [Hno|(root & r & HR & Hnd & Hlive)]; [exfalso; eapply Hno; eauto|].
+  destruct Hwfs' as [Hwf' Hse']. pose proof Hwf' as Hwf0'.
+  destruct Hwf' as [Hno|(root' & r' & HR' & Hnd' & Hlive')]; [exfalso; eapply Hno; eauto|].
+  pose proof (Hlive _ Hla) as Har. pose proof (Hlive _ Hlb) as Hbr.
+  destruct (dist_refines O _ _ _ _ _ HR Hnd Har Hbr) as (pa & pb & Hpa & Hpb & Hd). cbv zeta in Hd.
+  destruct (dist_refines O _ _ _ _ _ HR' Hnd' (Hlive' _ Hla') (Hlive' _ Hlb')) as (pa' & pb' & Hpa' & Hpb' & Hd').
+  cbv zeta in Hd'.
+  pose proof (compress_node_paths t t' id root r root' r' (conj Hwf0 Hse) Hc (conj Hwf0' Hse') HR HR') as Hpaths.
+  rewrite (Hpaths _ pa a (le_n _) Hpa Haid) in Hpa'. injection Hpa' as <-.
+  rewrite (Hpaths _ pb b (le_n _) Hpb Hbid) in Hpb'. injection Hpb' as <-.
+  destruct (lca_spec _ _ _ _ _ Hnd Hpa Hpb) as (pc & c0 & _ & _ & Hsa & Hsb & _ & _).
+  set (ta := skipn (cpl pa pb) pa) in *. set (tb := skipn (cpl pa pb) pb) in *.
+  assert (Hdis : forall z, In z ta -> In z tb -> False).
+  { intros z. apply (lca_tails_disjoint _ _ _ _ _ z Hnd Hpa Hpb). }
+  assert (Hgid : get t id = Ok n) by (apply get_Ok; auto).
+  (* in a root path, id is followed by its only child and child is preceded by id *)
+  assert (Hafter : forall x q pre post, rpath x r = Some q -> x <> id -> q = pre ++ id :: post ->
+                     exists post', post = child :: post').
+  { intros x q pre post Hq Hx ->. destruct post as [|h post'].
+    - destruct (rpath_last _ _ _ Hq) as (q' & E). apply app_inj_tail in E as [_ E]. congruence.
+    - exists post'. f_equal. pose proof (rpath_linked _ _ _ Hq) as Hl. apply linked_split in Hl.
+      destruct (redge_arena _ _ _ _ _ _ _ HR Hl) as (nu & nv & Hgu & _ & _ & Hin).
+      assert (nu = n) by congruence. subst nu. rewrite Hchn in Hin. simpl in Hin. intuition. }
+  assert (Hbefore : forall x q pre post, rpath x r = Some q -> q = pre ++ child :: post ->
+                      exists pre', pre = pre' ++ [id]).
+  { intros x q pre post Hq ->. destruct pre as [|u pre _] using rev_ind.
+    - exfalso. destruct (rpath_head _ _ _ Hq) as (q' & E). simpl in E. injection E as E _.
+      rewrite (Rep_rid _ _ _ _ _ HR) in E. subst child.
+      destruct (Rep_inv _ _ _ _ _ HR) as (nr & ? & _ & Hnr & _ & _ & Hpr & _). congruence.
+    - exists pre. f_equal. f_equal. pose proof (rpath_linked _ _ _ Hq) as Hl.
+      rewrite <- app_assoc in Hl. simpl in Hl. apply linked_split in Hl.
+      destruct (redge_arena _ _ _ _ _ _ _ HR Hl) as (nu & nv & _ & Hgv & Hpv & _).
+      apply get_Ok in Hgv as [Hnv _]. assert (nv = nc) by congruence. subst nv. congruence. }
+  assert (Hc0 : c0 <> id).
+  { intros ->. destruct (Hafter a pa pc ta Hpa Haid Hsa) as (ta' & Eta).
+    destruct (Hafter b pb pc tb Hpb Hbid Hsb) as (tb' & Etb).
+    apply (Hdis child); [rewrite Eta|rewrite Etb]; simpl; auto. }
+  assert (Hf0 : notid id c0 = true) by (unfold notid; apply negb_true_iff, Nat.eqb_neq; auto).
+  destruct (tails_filter (notid id) pc c0 ta tb Hf0 Hdis) as [Eta Etb].
+  rewrite <- Hsa, <- Hsb in Eta, Etb. rewrite Eta, Etb in Hd'. rewrite <- filter_app in Hd'.
+  exists (path_len O (map (edge_of t) (ta ++ tb))). do 2 eexists. split; [exact Hd|].
+  rewrite Hd'. f_equal. f_equal.
+  (* the edge maps *)
+  assert (Hsame : forall x, x <> child -> x <> id -> edge_of t' x = edge_of t x).
+  { intros x Hxc Hxid. destruct (nth_error t x) as [m|] eqn:Hm.
+    - destruct (Sup x m Hm Hxid) as (m' & Hm' & _ & _ & He). apply Nat.eqb_neq in Hxc. rewrite Hxc in He.
+      rewrite (edge_of_nth _ _ _ Hm), (edge_of_nth _ _ _ Hm'). auto.
+    - unfold edge_of. rewrite Hm. apply nth_error_None in Hm.
+      rewrite (proj2 (nth_error_None t' x)) by lia. auto. }
+  assert (Hechild : edge_of t' child =
+            match edge_of t id, edge_of t child with Some p, Some q => Some (ladd O p q) | _, _ => None end).
+  { destruct (Sup child nc Hnc Hcid) as (m' & Hm' & _ & _ & He). rewrite Nat.eqb_refl in He.
+    rewrite (edge_of_nth _ _ _ Hm'), (edge_of_nth _ _ _ Hn), (edge_of_nth _ _ _ Hnc), He.
+    unfold compress_edge in Hce. destruct (npedge n), (npedge nc); congruence. }
+  assert (Hiff : edge_of t id = None <-> edge_of t child = None).
+  { rewrite (edge_of_nth _ _ _ Hn), (edge_of_nth _ _ _ Hnc).
+    unfold compress_edge in Hce. destruct (npedge n), (npedge nc); split; congruence. }
+  assert (Hndl : NoDup (ta ++ tb)).
+  { apply NoDup_app_iff. splits.
+    - pose proof (rpath_NoDup _ _ _ Hnd Hpa) as H. rewrite Hsa in H. apply NoDup_app_iff in H as (_ & H & _).
+      apply NoDup_cons_iff in H as [_ H]. auto.
+    - pose proof (rpath_NoDup _ _ _ Hnd Hpb) as H. rewrite Hsb in H. apply NoDup_app_iff in H as (_ & H & _).
+      apply NoDup_cons_iff in H as [_ H]. auto.
+    - intros z H1 H2. eapply Hdis; eauto. }
+  destruct (in_dec Nat.eq_dec id (ta ++ tb)) as [Hidl|Hidl].
+  - apply in_app_or in Hidl as [Hin|Hin]; apply in_split in Hin as (u & w & Eu).
+    + assert (Epa : pa = (pc ++ c0 :: u) ++ id :: w) by (rewrite Hsa, Eu, <- app_assoc; reflexivity).
+      destruct (Hafter a pa _ w Hpa Haid Epa) as (v & ->).
+      rewrite Eu, <- app_assoc. cbn [app].
+      rewrite Eu, <- app_assoc in Hndl. cbn [app] in Hndl.
+      destruct (NoDup_mid2 _ _ _ _ Hndl) as (N1 & N2 & N3 & N4 & N5).
+      apply path_len_merge; auto.
+    + assert (Epb : pb = (pc ++ c0 :: u) ++ id :: w) by (rewrite Hsb, Eu, <- app_assoc; reflexivity).
+      destruct (Hafter b pb _ w Hpb Hbid Epb) as (v & ->).
+      rewrite Eu, app_assoc. rewrite Eu, app_assoc in Hndl.
+      destruct (NoDup_mid2 _ _ _ _ Hndl) as (N1 & N2 & N3 & N4 & N5).
+      apply path_len_merge; auto.
+  - apply path_len_same with (c := child); auto.
+    intros Hcl. apply Hidl. apply in_app_or in Hcl as [Hin|Hin]; apply in_split in Hin as (u & w & Eu).
+    + assert (Epa : pa = (pc ++ c0 :: u) ++ child :: w) by (rewrite Hsa, Eu, <- app_assoc; reflexivity).
+      destruct (Hbefore a pa _ w Hpa Epa) as (pre' & Epre). apply last_in in Epre as [E|E]; [congruence|].
+      apply in_or_app. left. rewrite Eu. apply in_or_app. auto.
+    + assert (Epb : pb = (pc ++ c0 :: u) ++ child :: w) by (rewrite Hsb, Eu, <- app_assoc; reflexivity).
+      destruct (Hbefore b pb _ w Hpb Epb) as (pre' & Epre). apply last_in in Epre as [E|E]; [congruence|].
+      apply in_or_app. right. rewrite Eu. apply in_or_app. auto.
+Qed.
+
+Lemma compress_go_dist : forall l t a b,
+  WFS t -> live (snd (compress_go O l t)) a -> live (snd (compress_go O l t)) b ->
+  live t a /\ live t b /\
+  exists d k k', get_distance O t a b = Ok (d, k) /\ get_distance O (snd (compress_go O l t)) a b = Ok (d, k').
+Proof.
+  induction l as [|i l IH]; intros t a b Hwfs Ha Hb; simpl in *.
+  - splits; auto. destruct Hwfs as [Hwf _].
+    destruct Hwf as [Hno|(root & r & HR & Hnd & Hlive)]; [exfalso; eapply Hno; eauto|].
+    destruct (dist_refines O _ _ _ _ _ HR Hnd (Hlive _ Ha) (Hlive _ Hb)) as (pa & pb & _ & _ & Hd).
+    cbv zeta in Hd. do 3 eexists. split; exact Hd.
+  - destruct (compress_node O t i) as [t1| | |] eqn:E; simpl in *.
+    2-4: (splits; auto; destruct Hwfs as [Hwf _];
+          destruct Hwf as [Hno|(root & r & HR & Hnd & Hlive)]; [exfalso; eapply Hno; eauto|];
+          destruct (dist_refines O _ _ _ _ _ HR Hnd (Hlive _ Ha) (Hlive _ Hb)) as (pa & pb & _ & _ & Hd);
+          cbv zeta in Hd; do 3 eexists; split; exact Hd).
+    pose proof (compress_node_wf O _ _ _ Hwfs E) as Hwfs1.
+    destruct (IH t1 a b Hwfs1 Ha Hb) as (Ha1 & Hb1 & d & k & k' & Hd1 & Hd').
+    destruct (compress_node_dist t t1 i a b Hwfs E Ha1 Hb1) as (Ha0 & Hb0 & d0 & k0 & k0' & Hd0 & Hd0').
+    splits; auto. rewrite Hd1 in Hd0'. injection Hd0' as <- <-. eauto.
+Qed.
+
+(* compress leaves the length of the path between any two surviving nodes (in particular between any
+   two leaves) unchanged, whatever it returns; only associativity of the addition is used *)
+Theorem compress_dist t a b :
+  WFS t -> live (snd (compress O t)) a -> live (snd (compress O t)) b ->
+  exists d k k', get_distance O t a b = Ok (d, k) /\ get_distance O (snd (compress O t)) a b = Ok (d, k').
+Proof.
+  intros Hwfs Ha Hb. rewrite compress_unfold in *.
+  destruct (compress_go_dist _ t a b Hwfs Ha Hb) as (_ & _ & H). exact H.
 Qed.
 
 End CompressDist.
